@@ -23,12 +23,11 @@
    bytes per call (c in Chunks) - this is what produces short reads/writes. *)
 EXTENDS Transport, Json
 
-CONSTANTS MaxSegs, MaxLen, Bases, FLens, Kinds, MaxOps, MaxN, FileSize, Chunks
+CONSTANTS MaxSegs, MaxLen, Bases, FLens, Kinds, MaxOps, MaxN, FileSize, Chunks, MaxAddr
 
 Tup(b, l) == <<b, l>>
 SegSet == {Tup(b, l) : b \in Bases, l \in 0..MaxLen}
-MaxAddr == 10
-ASSUME \A b \in Bases : b + MaxLen < MaxAddr
+ASSUME (\A b \in Bases : b + MaxLen <= MaxAddr) /\ (\A l \in FLens : l <= MaxAddr) /\ MaxAddr < 50
 AddrTok(a) == a                          \* initial content of address a: a token naming the address
 FileTok(x) == 50 + x                     \* content of the source file at offset x
 DataTok(j, i) == 100 * j + i             \* i-th byte of the data of operation number j
